@@ -51,7 +51,7 @@ prop('C04', ['T5', 'N1', 'F8', 'M4', 'K4'],
      'node_entries (M4); the backwards walkers reverse their result (K4).',
      ['accessor(tree) is the leaf', 'prefix-freeness of paths', 'codify/eval agreement'])
 
-prop('C05', ['F1', 'F2', 'F3', 'F4', 'W2'],
+prop('C05', ['F1', 'F2', 'F3', 'F4', 'W2', 'K3', 'M7'],
      'tree_map family, structural part: options forwarded unchanged (F1); the six map functions, '
      'three transpose-map and three broadcast-map functions are one normal form modulo the '
      'declared variation points, with the extra iterable first (F2); every rest is matched by an '
@@ -61,14 +61,14 @@ prop('C05', ['F1', 'F2', 'F3', 'F4', 'W2'],
      'order and f_node once per node after its children were popped (W2).',
      ['argument identity', 'functor laws'])
 
-prop('C06', ['H1', 'H2', 'H3'],
+prop('C06', ['H1', 'H4', 'H2', 'H3'],
      'Equality and hash: every value that feeds HashCombine is compared strictly by EqualTo (H1); '
      'EqualTo strictly compares size, none_is_leaf and per node kind / arity / registration / '
      'metadata and reads neither original_keys nor node_entries (H2); the six operators and their '
      'bindings map to the right relation and strictness (H3).',
      ['equality semantics across construction routes'])
 
-prop('C07', ['P1', 'P2cxx', 'P2py', 'W1', 'H3'],
+prop('C07', ['P1', 'P2cxx', 'P2py', 'P3', 'P4', 'W1', 'H3', 'K3', 'M7'],
      'Prefix matching: per kind, the attributes compared by IsPrefix, FlattenUpTo, the broadcast '
      'walker and prefix_errors equal the reference table of the property statement (P1); '
      'structural mismatch raises ValueError only, prefix_errors constructs only ValueError, sorts '
@@ -85,7 +85,7 @@ prop('C08', ['I3', 'M5', 'M6', 'F9', 'T6', 'K1'],
      'says (F9); the Python predicates use the engine\'s formulas (T6); K1.',
      ['count identities', 'transform/compose algebra', 'repr text'])
 
-prop('C09', ['M4', 'P1', 'K4', 'F1', 'F2'],
+prop('C09', ['M4', 'P1', 'P4', 'K4', 'F1', 'F2'],
      'Broadcasting, structural part: the merge walker copies every payload field of a node (M4); '
      'its kind x kind compatibility equals the prefix matchers\' (P1); it walks backwards with '
      'descending loops and one final reverse (K4); the Python layer forwards options and uses the '
